@@ -18,7 +18,7 @@ REQUIRED_CLAUSES = ["all.equals-grundy-set", "all.no-repeats", "all.contains-fcf
 LANDMARKS = {
     "components": ("BpSeq.all_dot_brackets", "components[-1].append(next_vertex)"),
     "greedy-permutation": ("BpSeq.all_dot_brackets", "orders[permutation[i]] = order"),
-    "product": ("BpSeq.all_dot_brackets", "solutions.add"),
+    "product": ("BpSeq.all_dot_brackets", "self.__make_dot_bracket(regions, orders)"),
     "pk-free-exit": ("BpSeq.all_dot_brackets", "return [self.fcfs]"),
 }
 _cur = {}
